@@ -146,7 +146,24 @@ def work(args):
             desc, files, feats = sized_case(*SIZED[index % len(SIZED)]), {}, []
             suitcases.LAST_CHILDREN[:] = []
         else:
-            if kind == "signed" and index % 10 < 5:
+            if kind == "samename":
+                # a hierarchy three and four levels deep in which different parents integrate *different* envelopes under the same name
+                def env_(seq, deps=None, payload=None):
+                    e = {"suit-authentication-wrapper": {"SuitDigest": {"suit-digest-algorithm-id": "cose-alg-sha-256"}},
+                         "suit-manifest": {"suit-manifest-version": 1, "suit-manifest-sequence-number": seq,
+                                           "suit-common": {"suit-components": [["M", seq % 5]]}}}
+                    if payload:
+                        e["suit-integrated-payloads"] = {"#fw": payload}
+                    if deps:
+                        e["suit-integrated-dependencies"] = deps
+                    return {"SUIT_Envelope_Tagged": e}
+                k_ = index % 3
+                deep = {"#local.suit": env_(33 + index)} if k_ == 2 else None
+                desc = env_(1 + index % 9, {"#app.suit": env_(10, {"#local.suit": env_(11, deep, "aa11")}),
+                                            "#rad.suit": env_(20, {"#local.suit": env_(22, None, "bb22" if k_ else None)})})
+                files, feats = {}, []
+                suitcases.LAST_CHILDREN[:] = []
+            elif kind == "signed" and index % 10 < 5:
                 # the plainest envelope there is (SHA-256, one component, one command), signed with each algorithm in turn
                 desc, files, feats = {"SUIT_Envelope_Tagged": {
                     "suit-authentication-wrapper": {"SuitDigest": {"suit-digest-algorithm-id": "cose-alg-sha-256"}},
@@ -201,7 +218,7 @@ def work(args):
     rm = drv.call({"op": "suit.roundtrip", "bytes": b.hex(), "fs": {}})
     i0, s0 = spans(b)
     d = suitcases.scratch_dir()
-    routes = [("yaml", False), ("json", False)] + ([("yaml", True), ("json", True)] if index % 2 == 0 else [])
+    routes = [("yaml", False), ("json", False)] + ([("yaml", True), ("json", True)] if index % 2 == 0 or kind == "samename" else [])
     for fmt, hier in routes:
         r = reparse_create(b, fmt, hier, d)
         tag = f"{fmt}{'+hierarchy' if hier else ''}"
@@ -237,6 +254,7 @@ def run(tier: str, seed: int) -> int:
         return finish(res, st, RULE, NOTE)
     n = 700 if tier == "quick" else 15000
     jobs = [(seed, i, "plain") for i in range(n)] + [(seed, 8 * 10 ** 6 + i, "ambiguous") for i in range(n // 3)]
+    jobs += [(seed, 13 * 10 ** 6 + i, "samename") for i in range(3 if tier == "quick" else 30)]
     jobs += [(seed, i, "sized") for i in range(8)] + [(seed, 11 * 10 ** 6 + i, "signed") for i in range(40 if tier == "quick" else 600)]
     known = {e["id"] for e in Findings().known(PROP)}
     outs = common.pmap(work, jobs, chunk=8)
